@@ -1,12 +1,22 @@
----- MODULE GenC ----
-EXTENDS Constraints, Json, TLC
-Pairs == {<<g, lim>> : g \in {0, 2, 5}, lim \in {10, 20}}
-VARIABLES c1, c2, done
-Init == c1 \in {<<>>} \cup {<<p>> : p \in Pairs} \cup {<<p, q>> : p \in Pairs, q \in Pairs} /\ c2 \in {<<>>} \cup {<<p>> : p \in Pairs} /\ done = FALSE
-Next == done = FALSE /\ done' = TRUE /\ UNCHANGED <<c1, c2>>
-Probes == {<<g, d>> : g \in 0..6, d \in {5, 10, 15, 20, 25}}
-RECURSIVE S2Q(_)
-S2Q(S) == IF S = {} THEN <<>> ELSE LET m == CHOOSE x \in S : \A y \in S : (x[1] < y[1]) \/ (x[1] = y[1] /\ x[2] <= y[2]) IN <<m>> \o S2Q(S \ {m})
-Emit == done => LET t == Build(Empty, <<c1, c2>>) IN
-        PrintT(<<"REPLAY", ToJson([kind |-> "cons", calls |-> <<c1, c2>>, probes |-> [i \in 1..Len(S2Q(Probes)) |-> <<S2Q(Probes)[i][1], S2Q(Probes)[i][2], Validate(t, S2Q(Probes)[i][1], S2Q(Probes)[i][2])>>]])>>)
-====
+-------------------------------- MODULE GenC --------------------------------
+(* Generation instance of Constraints.tla: one line per (table, split into two   *)
+(* add calls) with the admission verdict of every probe computed by the spec.    *)
+(* adm[i][j] = 1 iff Validate(table, gap = i - 1, Dists[j]); lim[i] = applicable *)
+(* limit of gap i - 1 (0 = none).  All distances / limits in half units.         *)
+EXTENDS CAlpha, Json, TLC
+VARIABLES stage, first, calls
+vars == <<stage, first, calls>>
+Init == stage = 0 /\ first = <<>> /\ calls = <<>>
+Next == \/ /\ stage = 0 /\ stage' = 1 /\ calls' = calls
+           /\ \E f \in {<<>>} \cup {<<p>> : p \in Pairs} : first' = f
+        \/ /\ stage = 1 /\ stage' = 2 /\ first' = first
+           /\ \E rest \in SeqsUpTo(IF first = <<>> THEN 0 ELSE MaxEntries - 1) :
+                \E sp \in Splits(first \o rest) : calls' = sp
+Spec == Init /\ [][Next]_vars
+NG == MaxGap + 2
+Emit == stage = 2 =>
+        LET t == Build(Empty, calls) IN
+        PrintT(<<"REPLAY", ToJson([kind |-> "cons", calls |-> calls, dists |-> Dists,
+                 lim |-> [i \in 1..NG |-> Limit(t, i - 1)],
+                 adm |-> [i \in 1..NG |-> [j \in 1..Len(Dists) |-> IF Validate(t, i - 1, Dists[j]) THEN 1 ELSE 0]]])>>)
+=============================================================================
